@@ -66,6 +66,14 @@ def build_replay(repo):
     env["RUSTFLAGS"] = "--cfg dd_iast_verif"
     env["CARGO_TARGET_DIR"] = os.path.join(VERIF, ".cache", "target")
     stamp_sources(repo)
+    # scratch directories of real-file-system witnesses whose run was killed by a time limit (older than 15 minutes)
+    import glob, shutil, tempfile, time
+    for d in glob.glob(os.path.join(tempfile.gettempdir(), "verif_fs_*")):
+        try:
+            if time.time() - os.path.getmtime(d) > 900:
+                shutil.rmtree(d, ignore_errors=True)
+        except OSError:
+            pass
     p = subprocess.run(["cargo", "build", "--release", "--offline", "-q"], cwd=os.path.join(VERIF, "replay"),
                        env=env, capture_output=True, text=True)
     return p.returncode == 0, p.stderr[-3000:]
